@@ -88,6 +88,21 @@ pub fn gen(ctx: &Ctx, rng: &mut Rng, out: &mut Vec<String>) {
                 if p.len() >= 2 && p.len() < d { out.push(format!("c04.step\t{sh}\t{db}\t{}", nats(&p))); }
             }
         }
+        // the same sums over entries that are not counts: negative and zero entries, `-0.0`, and (every other shape) NaN / ±inf — a residual
+        // or difference spectrum; a summation that skips "empty" cells or keeps only positive ones is exact on counts and wrong here
+        if d >= 2 && n <= 4200 {
+            for round in 0..2 {
+                let data = shapes::signed_data(rng, n, round == 1);
+                let db = bits(&data);
+                for mask in 1u32..(1 << d) - 1 {
+                    if d > 3 && !ctx.tier_thorough && rng.below(3) != 0 { continue; }
+                    let mut subset: Vec<usize> = (0..d).filter(|i| mask >> i & 1 == 1).collect();
+                    if round == 1 { rng.shuffle(&mut subset); }
+                    out.push(format!("c04.marg\t{sh}\t{db}\t{}", nats(&subset)));
+                    if subset.len() >= 2 { out.push(format!("c04.step\t{sh}\t{db}\t{}", nats(&subset))); }
+                }
+            }
+        }
         // error streams: duplicates (incl. duplicate of an out-of-range axis), out of range, too many, mixtures
         let a0 = rng.below(d as u64) as usize;
         out.push(format!("c04.marg\t{sh}\t{db}\t{}", nats(&[a0, a0])));
